@@ -206,8 +206,10 @@ def cfg_text(enforce):
 
 
 def run_strata(sc, binary, enforce, total_worlds, ops, cfgs_core="default", nshards=14, strata=None, pinned_prefix=None):
-    """Generates and validates every stratum.  Returns (stats, rejections) where a rejection is
-    (stratum, run, idx, event)."""
+    """Generates and validates every stratum.  Returns (stats, rejections, other, samples, sample runs)
+    where a rejection is (stratum, run, idx, event, payload)."""
+    cfgt = cfg_text(enforce)
+    runs_sample = []
     stats = {}
     rejections = []
     other_all = []
@@ -228,7 +230,7 @@ def run_strata(sc, binary, enforce, total_worlds, ops, cfgs_core="default", nsha
             if r.returncode != 0:
                 raise vlib.MachineryError("fed run on pinned findings failed: %s" % r.stderr[-2000:])
             runs, other = load_runs(out)
-            rej, mono, st = vlib.validate_lenient(sub, "FederationTrace", "fed.cfg", runs, "pinned")
+            rej, mono, st = vlib.validate_lenient(sub, "FederationTrace", "fed.cfg", runs, "pinned", cfg_text=cfgt)
             for r2, idx, ev, payload in rej:
                 rejections.append(("pinned", r2, idx, ev, payload))
             stats["pinned"] = dict(worlds=len(runs), ops=len(pinned), rejected=len(rej), tlc=st, op_tags={}, nontrivial=0, start_failed=0, gen_invalid=0)
@@ -249,7 +251,9 @@ def run_strata(sc, binary, enforce, total_worlds, ops, cfgs_core="default", nsha
                 runs += a
                 other += b
             nops = sum(1 for r in runs for e in r["events"] if e["ev"] == "Req")
-            rej, mono, st = vlib.validate_lenient(sub, "FederationTrace", "fed.cfg", runs, name)
+            rej, mono, st = vlib.validate_lenient(sub, "FederationTrace", "fed.cfg", runs, name, cfg_text=cfgt)
+            if name == "core":
+                runs_sample = [r for r in runs if len(r["events"]) > 20][:4]
             if mono:
                 r, idx = mono[0]
                 raise vlib.MachineryError("R7: the harness evaluator and Ref disagree (gateway not involved) on\n%s" %
@@ -277,4 +281,4 @@ def run_strata(sc, binary, enforce, total_worlds, ops, cfgs_core="default", nsha
                                     "operation": req["text"], "variables": req["op"]["vars"]})
         finally:
             sub.cleanup()
-    return stats, rejections, other_all, samples
+    return stats, rejections, other_all, samples, runs_sample
